@@ -59,6 +59,9 @@ func writeValue(e *Encoder, d *decodeState, ifWriteTag bool, tagName string) err
 func writeLiteralPayload(e *Encoder, v any) (err error) {
 	switch v := v.(type) {
 	case string:
+		if len(v) > maxStringLen {
+			return errStringTooLong
+		}
 		err = writeInt16(e.w, int16(len(v)))
 		if err != nil {
 			return
